@@ -5,32 +5,33 @@ package server
 import (
 	"bytes"
 	"context"
+	"time"
 
 	"github.com/mimecast/dtail/internal/io/line"
+	"github.com/mimecast/dtail/internal/verifrt"
 )
 
-// VerifAggregate runs the real server side pipeline behind the file readers
-// (fieldFromLine: parser.MakeFields + WhereClause; setAdditionalFields;
-// aggregateAndSerialize with its periodic serialisation, triggered here through
-// Serialize() after every batch but the last, as the interval timer does, and
-// the final serialisation when the input ends) over batches of lines. It
-// returns the messages, grouped by the batch after which they were collected.
-// (Which file's channel the aggregator reads next is the subject of C06.)
+// VerifAggregate runs the real server side aggregator (Aggregate.Start: the
+// goroutine pipeline from the file readers' line channel through parsing,
+// where and set clauses to aggregation and serialisation) over batches of
+// lines: the lines of a batch are handed over on a registered line channel, as
+// a file reader does; after every batch but the last the harness triggers the
+// periodic serialisation (Serialize(), what the interval timer does); closing
+// the channel ends the run with the final serialisation. It returns the
+// messages, grouped by the batch after which they were collected.
 func VerifAggregate(queryStr string, batches [][]string) ([][]string, error) {
 	a, err := NewAggregate(queryStr)
 	if err != nil {
 		return nil, err
 	}
-	ctx := context.Background()
-	fieldsCh := make(chan map[string]string)
-	var in <-chan map[string]string = fieldsCh
-	if len(a.query.Set) > 0 {
-		in = a.setAdditionalFields(ctx, fieldsCh)
-	}
+	ctx, cancel := context.WithCancel(context.Background())
+	defer cancel()
 	msgs := make(chan string, 4096)
 	done := make(chan struct{})
+	lines := make(chan *line.Line, 100)
+	a.NextLinesCh <- lines
 	go func() {
-		a.aggregateAndSerialize(ctx, in, msgs)
+		a.Start(ctx, msgs)
 		close(done)
 	}()
 	var out [][]string
@@ -41,19 +42,24 @@ func VerifAggregate(queryStr string, batches [][]string) ([][]string, error) {
 		}
 		out = append(out, got)
 	}
-	for bi, lines := range batches {
-		for _, l := range lines {
-			a.fieldFromLine(ctx, &line.Line{Content: bytes.NewBufferString(l), Count: 1, TransmittedPerc: 100, SourceID: "f"}, fieldsCh)
+	for bi, batch := range batches {
+		for _, l := range batch {
+			lines <- &line.Line{Content: bytes.NewBufferString(l), Count: 1, TransmittedPerc: 100, SourceID: "f"}
 		}
 		if bi < len(batches)-1 {
-			a.Serialize(ctx) // what aggregateTimer does every interval
-			// a marker field set that aggregates nothing makes sure the serialisation has completed
+			// let the aggregator take what has been handed over, then trigger the
+			// periodic serialisation twice (the second returns once the first is complete)
+			verifrt.Sleep(500 * time.Millisecond)
+			a.Serialize(ctx)
 			a.Serialize(ctx)
 			collect()
 		}
 	}
-	close(fieldsCh)
-	<-done
+	close(lines)
+	select {
+	case <-done:
+	case <-time.After(30 * time.Second):
+	}
 	collect()
 	return out, nil
 }
